@@ -26,6 +26,8 @@ def replay(path):
 
 
 def extra(chk, info, res):
+    from checks import decisions_common as _dc
+    _dc.tie(chk, ['backwash'])
     from checks import guards_common
     guards_common.correspondence(chk, ['tank_is_high', 'start_backwash'])
     if info is not None:
